@@ -54,6 +54,16 @@ def _table_keys(repo, mod, name):
             keys = {e.value for e in v.elts if isinstance(e, ast.Constant)}
         elif isinstance(v, ast.Constant) and isinstance(v.value, str):
             keys = set(v.value)
+        else:
+            # any other spelling of a constant collection (frozenset('iufsonah'), set([...]), tuple(...), dict.fromkeys(...)): fold it
+            from ..peval import fold, Unfoldable, module_resolver
+            try:
+                val = fold(v.args[0] if isinstance(v, ast.Call) and norm(v.func) in ('frozenset', 'set', 'tuple', 'list', 'dict.fromkeys') and v.args else v,
+                           {}, None, module_resolver(repo, mod))
+                if isinstance(val, (str, list, tuple, dict)) and all(isinstance(x, str) for x in val):
+                    keys = set(val)
+            except Unfoldable:
+                keys = None
     return keys
 
 
